@@ -476,3 +476,18 @@ PROPS['C06']['explanation'] = ('Unbounded proof in two halves: (1) Engine D/X: f
     'well-formed definite-length data item of any shape and nesting depth (spec function `rest`, RFC 8949 grammar), terminates and cannot '
     'panic, and that appending the remaining members after the unknown value leaves exactly them (lemma ob_C06_unknown_value_is_skipped_exactly).')
 PROPS['C04']['verus'] = PROPS['C04']['verus'] + ['c06_cbor_skipper']
+
+# the two filtering loops are proved for lists of any length by Verus (unit c14_filter_loops); the Kani harnesses stay as
+# syntax-agnostic backstops on the real monomorphised code (mock SeqAccess, bounded list length)
+PROPS['C14']['level'] = 'proof'
+PROPS['C14']['verus'] = ['c14_filter_loops']
+PROPS['C14']['assumptions'] = ['A2', 'A4', 'A8', 'AV', 'AK', 'AS', 'AX']
+PROPS['C14']['explanation'] = ('Unbounded in the list length: Verus verifies the two hand-written visit_seq loops (verbatim; while-let unfolded to '
+    'loop/match/break, loop invariant injected) against a left-to-right specification: the kept values are the first two known entries in '
+    'order, the unknown flag is set iff some other format occurred, the whole list is consumed, and decoding fails only if the underlying '
+    'sequence fails. The element classifiers are uninterpreted there and proved by Kani: TryFrom for known parameters over all i32 and '
+    'type strings up to 12 bytes, the attestation-format spellings over all strings up to 20 bytes.')
+PROPS['C14']['kani'] = PROPS['C14']['kani'] + [K_C18_STRINGS[2]]
+PROPS['C01']['verus'] = PROPS['C01']['verus'] + ['c14_filter_loops']
+PROPS['C04']['verus'] = PROPS['C04']['verus'] + ['c14_filter_loops']
+PROPS['C15']['verus'] = ['c14_filter_loops']
